@@ -410,8 +410,24 @@ def extreme_unit(F, S, struct, rid, transform=None):
         S.bad(rid, "extreme-rescan", struct, "%s: %s" % (struct, why), loc(fn.span))
 
 
+WINDOWED = ["SimpleMovingAverage", "WeightedMovingAverage", "StandardDeviation", "MeanAbsoluteDeviation", "Minimum", "Maximum", "BollingerBands"]
+
+
+def reset_premise(F, rep, rid="L1", structs=WINDOWED):
+    """the statement counts inputs "since construction or reset": the induction may restart at reset() only if reset() restores the
+    constructor state — C04's rules, run here for the windowed indicators"""
+    import rules_c04
+    from rules_c09 import _MapFor
+    m = _MapFor(rep, rid, structs)
+    try:
+        rules_c04.apply(F, m)
+    except (symex.Unsupported, KeyError, IndexError, TypeError, AttributeError) as e:
+        Sink.bad(m, rid, "unrecognised", "reset", "UNRECOGNISED idiom while checking that reset() restores the constructor state: %r" % (e,))
+
+
 def run(tier, repo=None, tag="repo"):
     rep = Report("C01", tier)
+    rep.rule("L1", "reset() restores the constructor state of the seven windowed indicators (C04's rules), so the induction restarts there", 7)
     rep.rule("L0", "ring-lemma premises: window zero-filled by the constructor, exactly one store of the raw input at the write cursor per call, wrapping cursor and saturating counter in lockstep", 4)
     rep.rule("I1", "SimpleMovingAverage: running sum equals the window sum in all three cases (first call, warm-up, steady state); output = window mean", 1)
     rep.rule("I2", "WeightedMovingAverage: weight, age-weighted sum and flat sum equal their window functionals; output = Σ i·x_i / (k(k+1)/2)", 1)
@@ -423,6 +439,7 @@ def run(tier, repo=None, tag="repo"):
     F = ir.load("default", repo, tag)
     try:
         apply(F, Sink(rep))
+        reset_premise(F, rep)
         from rules_c14 import mirror
         S_ = Sink(rep)
         extreme_unit(F, S_, "Minimum", "I6")
